@@ -22,6 +22,9 @@
 (*                        too-much-gas epoch, ComputeTxFee afterwards)      *)
 (*   executingFailedTransaction (insufficient funds only)                   *)
 (*                      sender -= ComputeTxFee, nonce++, fees += the same   *)
+(*   processMoveBalance receiver not payable (smart-contract address without *)
+(*                      a payable contract): the sender keeps the value,    *)
+(*                      pays the move-balance fee, nonce++ (ProcessIfError) *)
 (*   processMoveBalance sender -= ComputeMoveBalanceFee + value, nonce++,   *)
 (*                      receiver += value, fees += ComputeMoveBalanceFee    *)
 (*                      (the gas above the move-balance gas is given back   *)
@@ -31,15 +34,21 @@
 EXTENDS Integers, Sequences, FiniteSets, TLC
 
 CONSTANTS Accts,       \* account names
+          PayableSC,   \* accounts at smart-contract addresses whose code metadata says "payable"
+          NonPayableSC,\* accounts at smart-contract addresses that are not payable (metadata, or no account there at all)
+          KnownDefects,\* named deviations of the code from the intended design (see "notPayableFeeAccounting")
           EcoCfgs,     \* [minPrice, minLimit, perByte, maxGas, num, den, fp, fm, supply]; fp/fm: epoch flags
-          Scenarios,   \* initial states [bal : [Accts -> Nat], nonce : [Accts -> Nat]]; an account exists iff bal > 0 or nonce > 0
+          Scenarios,   \* initial states [bal, nonce : [Accts -> Nat], sc : set of smart-contract accounts deployed initially];
+                       \* a plain account exists iff bal > 0 or nonce > 0
           Txs,         \* transactions [snd, rcv, dn, value, price, gl, dl]; tx nonce = sender nonce + dn
           Log(_, _)
 
-VARIABLES bal, nonce, exists, fees, eco, total, hist
+VARIABLES bal, nonce, exists, fees, eco, total,
+          minted,      \* fees accounted to the fee collector that nobody was charged (0 in the intended design)
+          hist
 
-vars  == <<bal, nonce, exists, fees, eco, total, hist>>
-cvars == <<bal, nonce, exists, fees, eco, total>>
+vars  == <<bal, nonce, exists, fees, eco, total, minted, hist>>
+cvars == <<bal, nonce, exists, fees, eco, total, minted>>
 
 RECURSIVE SumOver(_, _)
 SumOver(f, S) == IF S = {} THEN 0 ELSE LET x == CHOOSE y \in S : TRUE IN f[x] + SumOver(f, S \ {x})
@@ -67,13 +76,17 @@ Init ==
     /\ eco \in EcoCfgs
     /\ \E s \in Scenarios :
          /\ bal = s.bal /\ nonce = s.nonce
-         /\ exists = [a \in Accts |-> s.bal[a] > 0 \/ s.nonce[a] > 0]
+         /\ exists = [a \in Accts |-> s.bal[a] > 0 \/ s.nonce[a] > 0 \/ a \in s.sc]
          /\ total = SumOver(s.bal, Accts)
-    /\ fees = 0
+    /\ fees = 0 /\ minted = 0
     /\ hist = <<[a |-> "New", in |-> [eco |-> eco], out |-> [res |-> "new"],
                  st |-> [bal |-> bal, nonce |-> nonce, exists |-> exists, fees |-> 0]]>>
 
-\* the outcome split of checkTxValues, in the order of the code
+\* BlockChainHookImpl.IsPayable: a plain address is payable; a smart-contract address is payable iff an account exists
+\* there and its code metadata has the payable bit
+Payable(r) == IF r \in PayableSC \cup NonPayableSC THEN exists[r] /\ r \in PayableSC ELSE TRUE
+
+\* the outcome split of checkTxValues (+ the receiver check of processMoveBalance), in the order of the code
 Outcome(tx) ==
     LET s == tx.snd
         txNonce == nonce[s] + tx.dn
@@ -82,7 +95,16 @@ Outcome(tx) ==
         ELSE IF ~ValidValues(tx) THEN "invalid"
         ELSE IF bal[s] < TxFee(tx) THEN "insufficientFee"
         ELSE IF bal[s] < (IF eco.fp THEN TxFee(tx) ELSE tx.gl * tx.price) + tx.value THEN "insufficientFunds"
+        ELSE IF ~Payable(tx.rcv) THEN "notPayable"       \* found by processMoveBalance after the sender was charged
         ELSE "ok"
+
+\* what scProcessor.ProcessIfError accounts to the fee collector for the rejected transfer: the whole transaction fee
+\* (gasLimit*gasPrice before the penalized-too-much-gas epoch) although processTxFee took only the move-balance fee
+\* -- named deviation "notPayableFeeAccounting"; intended design: what was charged
+ConsumedFee(tx) ==
+    IF "notPayableFeeAccounting" \in KnownDefects
+    THEN (IF eco.fp THEN TxFee(tx) ELSE tx.gl * tx.price)
+    ELSE MoveFee(tx)
 
 Process(tx) ==
     LET s == tx.snd
@@ -95,12 +117,22 @@ Process(tx) ==
                   /\ nonce' = [nonce EXCEPT ![s] = @ + 1]
                   /\ exists' = [exists EXCEPT ![s] = TRUE, ![r] = TRUE]
                   /\ fees' = fees + MoveFee(tx)
+                  /\ UNCHANGED minted
              [] o = "insufficientFunds" ->
                   /\ bal' = [bal EXCEPT ![s] = @ - TxFee(tx)]
                   /\ nonce' = [nonce EXCEPT ![s] = @ + 1]
                   /\ exists' = [exists EXCEPT ![s] = TRUE]
                   /\ fees' = fees + TxFee(tx)
-             [] OTHER -> UNCHANGED <<bal, nonce, exists, fees>>
+                  /\ UNCHANGED minted
+             [] o = "notPayable" ->
+                  \* processTxFee + nonce++ + value out + SaveAccount(sender); IsPayable fails;
+                  \* executeAfterFailedMoveBalanceTransaction -> ProcessIfError gives the value back to the sender
+                  /\ bal' = [bal EXCEPT ![s] = @ - MoveFee(tx)]
+                  /\ nonce' = [nonce EXCEPT ![s] = @ + 1]
+                  /\ exists' = [exists EXCEPT ![s] = TRUE]
+                  /\ fees' = fees + ConsumedFee(tx)
+                  /\ minted' = minted + ConsumedFee(tx) - MoveFee(tx)
+             [] OTHER -> UNCHANGED <<bal, nonce, exists, fees, minted>>
         /\ UNCHANGED <<eco, total>>
         /\ hist' = Log(hist, [a |-> "Process",
                               in |-> [snd |-> s, rcv |-> r, nonce |-> nonce[s] + tx.dn, value |-> tx.value,
@@ -125,13 +157,16 @@ TypeOK ==
     /\ fees >= 0
 
 \* value is conserved: all balances plus the collected fees
-Inv_C23_Conservation == SumOver(bal, Accts) + fees = total
+Inv_C23_Conservation == SumOver(bal, Accts) + fees = total + minted
+\* ... and nothing is accounted as a fee without having been charged (fails with "notPayableFeeAccounting")
+InvK_C23_NoMint == minted = 0
 
 \* the nonce of exactly one account (the sender) increases by one when something is charged, nothing moves otherwise
 Act_C23_NonceIffCharged ==
     [][ IF fees' > fees
         THEN \E s \in Accts : /\ nonce' = [nonce EXCEPT ![s] = @ + 1]
-                              /\ bal'[s] <= bal[s] - (fees' - fees)
+                              /\ bal'[s] < bal[s]
+                              /\ bal'[s] <= bal[s] - ((fees' - fees) - (minted' - minted))
         ELSE nonce' = nonce /\ bal' = bal /\ fees' = fees ]_cvars
 
 \* the three cases of the statement, on the logged outcome
@@ -144,7 +179,7 @@ Act_C23_Outcomes ==
                      /\ fee >= 0
                      /\ IF tx.snd = tx.rcv THEN bal' = [bal EXCEPT ![tx.snd] = @ - fee]
                         ELSE bal' = [bal EXCEPT ![tx.snd] = @ - tx.value - fee, ![tx.rcv] = @ + tx.value]
-                [] Last.out.res = "insufficientFunds" ->
-                     /\ fee >= 0 /\ bal' = [bal EXCEPT ![tx.snd] = @ - fee]
+                [] Last.out.res \in {"insufficientFunds", "notPayable"} ->      \* failures that charge only the fee
+                     /\ fee >= 0 /\ bal' = [bal EXCEPT ![tx.snd] = @ - (fee - (minted' - minted))]
                 [] OTHER -> bal' = bal /\ fees' = fees /\ nonce' = nonce ]_vars
 =============================================================================
